@@ -41,10 +41,13 @@ type Net struct {
 	DialFault map[string]string
 	// latency of one direction, drawn per message from the net stream
 	MinLatency, MaxLatency time.Duration
+	// Blackhole: connections of these owners are cut off from the network
+	// (writes vanish, nothing is delivered, dials never complete) until healed
+	Blackhole map[string]bool
 }
 
 func NewNet(s *Sim) *Net {
-	return &Net{S: s, listeners: map[string]Handler{}, DialFault: map[string]string{}}
+	return &Net{S: s, listeners: map[string]Handler{}, DialFault: map[string]string{}, Blackhole: map[string]bool{}}
 }
 
 func (n *Net) Listen(addr string, h Handler) {
@@ -113,6 +116,11 @@ func (n *Net) DialOwner(ctx context.Context, network, address, owner string) (ne
 	h := n.listeners[address]
 	n.mu.Unlock()
 	n.S.Count("dial")
+	n.mu.Lock()
+	if n.Blackhole[owner] {
+		fault = "blackhole"
+	}
+	n.mu.Unlock()
 	if fault == "blackhole" {
 		n.S.Count("fault:dial-blackhole")
 		<-ctx.Done()
@@ -294,6 +302,14 @@ func (c *Conn) Write(b []byte) (int, error) {
 	if c.inEOF {
 		c.WritesAfter++
 	}
+	c.N.mu.Lock()
+	bh := c.N.Blackhole[c.Owner]
+	c.N.mu.Unlock()
+	if bh {
+		c.BytesOut += len(b)
+		c.mu.Unlock()
+		return len(b), nil
+	}
 	c.out = append(c.out, b...)
 	c.BytesOut += len(b)
 	need := !c.srvNotice
@@ -370,8 +386,11 @@ func (c *Conn) Consume(n int) {
 
 // Deliver makes b readable by the client now.
 func (c *Conn) Deliver(b []byte) {
+	c.N.mu.Lock()
+	bh := c.N.Blackhole[c.Owner]
+	c.N.mu.Unlock()
 	c.mu.Lock()
-	if !c.inRST && !c.inEOF {
+	if !c.inRST && !c.inEOF && !bh {
 		c.in = append(c.in, b...)
 		c.BytesIn += len(b)
 		c.wakeReaders()
